@@ -133,7 +133,7 @@ def run_lle(case, rec):
             lle(T, top_chemical=top, use_cache=case['use_cache'])
         except Exception as e:
             if type(e).__name__ in ('NoEquilibrium', 'InfeasibleRegion'): rec.refuse(type(e).__name__); return
-            rec.exception('history', e, what=f'lle history ({method}) raised {type(e).__name__}: {str(e)[:120]}'); return
+            rec.exception('history/' + mtag, e, what=f'lle history ({method}) raised {type(e).__name__}: {str(e)[:120]}'); return
         rh = rows(s)
         tol = {'pseudo equilibrium': 1e-6, 'shgo': 1e-5, 'differential evolution': 2e-2}[method] * F
         ok = np.allclose(rh['l'], l, rtol=0, atol=tol) and np.allclose(rh['L'], L, rtol=0, atol=tol)
